@@ -492,6 +492,7 @@ func checkC15(p *Prog, r *Report) {
 	r.floor("E6.close-discipline", 1)
 	r.floor("E5.no-lost-wakeup", 2)
 	r.floor("E9.placeholder-aware", 2)
+	p.valuesVisitsEveryShard(r, "E5.values-complete")
 	// Values reports every added entry it visits: in whatever function walks shard.m on behalf of Map.Values, an
 	// iteration can leave a value out only because the entry is a waiter's placeholder (Wait != nil)
 	if mv := p.Fn("cmap", "Map.Values"); mv == nil {
@@ -653,4 +654,47 @@ func callsParamFunc(fn *ssa.Function) bool {
 		}
 	})
 	return found
+}
+
+// valuesVisitsEveryShard: Map.Values and Map.Range go over all shards: every loop that indexes m.shards in them is
+// bounded by len(m.shards) itself (not by the mask, a count taken elsewhere, or a constant).
+func (p *Prog) valuesVisitsEveryShard(r *Report, rule string) {
+	for _, name := range []string{"Map.Values", "Map.Range"} {
+		fn := p.Fn("cmap", name)
+		if fn == nil {
+			r.unresolved(rule, "cmap."+name)
+			continue
+		}
+		n, bad := 0, 0
+		for _, g := range withAnon(fn) {
+			eachInstr(g, false, func(_ *ssa.Function, i ssa.Instruction) {
+				ia, ok := i.(*ssa.IndexAddr)
+				if !ok || fieldKeyOfLoad(ia.X) != "cmap.Map.shards" {
+					return
+				}
+				n++
+				// the enclosing loop's bound
+				okb := false
+				for _, l := range sliceRangeLoops(g) {
+					if l.blocks[ia.Block()] && fieldKeyOfLoad(l.over) == "cmap.Map.shards" {
+						okb = true
+					}
+				}
+				if !okb {
+					bad++
+				}
+			})
+		}
+		if n == 0 {
+			// a range over m.shards by value has no IndexAddr on the field: fine if such a loop exists
+			for _, g := range withAnon(fn) {
+				for _, l := range sliceRangeLoops(g) {
+					if fieldKeyOfLoad(l.over) == "cmap.Map.shards" {
+						n++
+					}
+				}
+			}
+		}
+		r.check(n > 0 && bad == 0, rule, name+" visits every shard", p.pos(fn.Pos()), fnName(fn), "every access m.shards[i] is inside a loop bounded by len(m.shards)", name+" indexes the shards inside a loop that is not bounded by len(m.shards) (e.g. by the mask, which is one less): the last shard is never visited, so targets that hash into it are missing from AllTargets() - never used as roots by the cycle detector, never listed by queries")
+	}
 }
